@@ -6,6 +6,7 @@ def run(ctx):
     quick = ctx.tier == "quick"
     core.design_check(ctx, "Route.tla", "Route.cfg", timeout=900)
     behs = core.generate(ctx, "Gen_Route.tla", "Gen_Route.cfg", 0, 0, ctx.seed, bfs=True, timeout=900)
+    rehang = core.generate(ctx, "Gen_Route.tla", "Gen_Route_rehang.cfg", 0, 0, ctx.seed, bfs=True, timeout=900)      # the chain re-hung under the traffic
     # the BFS emits every (chain, id-class assignment, 3 routing steps); keep one behaviour per configuration
     rnd = random.Random(ctx.seed)
     byconf = {}
@@ -17,7 +18,9 @@ def run(ctx):
     total_confs = len(picked)
     if quick:
         rnd.shuffle(picked); picked = picked[:400]
-    ctx.say("  configurations: %d chains x id classes in the model, %d replayed" % (total_confs, len(picked)))
+    rnd.shuffle(rehang)
+    picked += rehang[:150 if quick else 2000]
+    ctx.say("  configurations: %d chains x id classes in the model, %d replayed (with %d histories in which the chain is re-hung under the traffic)" % (total_confs, len(picked), min(len(rehang), 150 if quick else 2000)))
     hb = core.build_harness(ctx)
     trace, summ = core.run_harness(ctx, hb, "route", picked, "route", timeout=2400)
     for inc in summ["incidents"]:
